@@ -138,6 +138,9 @@ def main(ctx):
                    "histories; every block applied on every replica; Agreement evaluated by TLC on the reported observations",
            "map_order_note": "Go re-randomises map iteration per loop: each replica is an independent sample of every map order "
                              "(K=6 replicas per block)"}
+    # growth module: consensus upgrade voting, activation, the intermediate genesis and restarts / rollbacks / crashes around them
+    # (Upgrade.tla; real multi-node worlds with real votes, proposals, insertions and restarts)
+    cov["consensus_upgrade"] = vlib.run_extra(ctx, "extra_upgrade", quick)
     return vlib.finish(ctx, "model_checking", cov, assumptions=[
         "epoch results are injected per identity into the real ceremony.ApplyNewEpoch (cached-evaluation branch); the answers "
         "themselves are not scripted here (C17)",
